@@ -84,7 +84,8 @@ theorem observe_releases_by_rule (s : State) (h : Nat) :
     have := batch_release_rule h b
     by_cases hlt : b.timeout < h <;> simp_all
   have e : batchExpired h = fun b => decide (b.timeout < h) := funext hb
-  simp only [doObserve, handleEvent]
+  rw [doObserve_eq]
+  simp only [doObserveStd, handleEvent]
   have hp := congrArg Slice.pool hk
   have hbt := congrArg Slice.batches hk
   have hcl := congrArg Slice.calls hk
@@ -229,6 +230,7 @@ theorem executed_never_refunded_call_partial (s : State) (h : Nat) (ev : Ev)
     (hrule : ∀ n ok, ev = .result n ok → ∀ c ∈ s.calls, c.nonce = n → solCallTimeoutCmp.eval h c.timeout = true)
     (hnopanic : (doObserve s h ev).2 ≠ .panic) :
     ∀ c ∈ expiredCalls h s.calls, c.nonce ∉ (doObserve s h ev).1.obsSuccess := by
+  rw [doObserve_eq] at hnopanic ⊢
   have e1 : batchCleanupSrc = .observedExternal := by decide
   have e2 : callCleanupSrc = .observedExternal := by decide
   have hsol : solCallTimeoutCmp = .lt := by decide
@@ -245,9 +247,9 @@ theorem executed_never_refunded_call_partial (s : State) (h : Nat) (ev : Ev)
     rw [(call_release_rule h s.calls).1] at hc
     simpa using mem_takeWhile_true _ _ _ hc
   cases ev with
-  | other => simp only [doObserve, handleEvent, hobs]; exact happlied c hmem
+  | other => simp only [doObserveStd, handleEvent, hobs]; exact happlied c hmem
   | result n ok =>
-    simp only [doObserve, handleEvent, hobs]
+    simp only [doObserveStd, handleEvent, hobs]
     cases ok with
     | false => simpa using happlied c hmem
     | true =>
@@ -257,7 +259,7 @@ theorem executed_never_refunded_call_partial (s : State) (h : Nat) (ev : Ev)
       simp [hsol, Cmp.eval] at this
       omega
   | batch t n =>
-    simp only [doObserve, handleEvent] at hnopanic ⊢
+    simp only [doObserveStd, handleEvent] at hnopanic ⊢
     cases hf : s.batches.find? (fun b => decide (b.token = t ∧ b.nonce = n)) with
     | none => rw [hf] at hnopanic; exact absurd rfl hnopanic
     | some b =>
